@@ -21,7 +21,7 @@ def _envs(extra):
 def drive_case(case, extra):
     from pymbolic import parse
     from pymbolic.interop.ast import ASTToPymbolic
-    s = " ".join(case["toks"])
+    s = case.get("text") or " ".join(case["toks"])      # the text is the model's (C07_Lex)
     rec = {"id": case["id"], "toks": case["toks"], "garbled": case["garbled"], "s": s}
     rec["pp"] = ser.obj_to_json(lambda: parse(s))
     try:
